@@ -436,6 +436,12 @@ class NativeInterp:
     def truth(self, v):
         return self._wrap(bool, v)
 
+    def test(self, v):
+        return self._wrap(bool, v)
+
+    def fresh(self, c):
+        return c
+
     def eq(self, a, b):
         return self._wrap(lambda: a == b)
 
